@@ -83,7 +83,9 @@ func (e *Engine) raceRecord(alt PtrAlt, typ types.Type, write bool, where string
 		return
 	}
 	o := alt.Obj
-	if o.Kind == KChan {
+	if o.Kind == KChan || strings.HasPrefix(where, "zz_verif_") {
+		// (accesses made by the harness and its stubs - the modelled wire, the OS model - are not
+		// accesses of the code under test)
 		return
 	}
 	key := fmt.Sprintf("%s%s", o.String(), selKey(alt.Path))
@@ -96,7 +98,7 @@ func (e *Engine) raceRecord(alt PtrAlt, typ types.Type, write bool, where string
 			return
 		}
 	}
-	r.acc[key] = append(r.acc[key], raceAcc{ptr: pointerLike(typ), tag: r.tag, write: write, atomic: e.inAtomicAcc, locks: locks, where: where})
+	r.acc[key] = append(r.acc[key], raceAcc{ptr: pointerLike(typ) || o.Kind == KMap, tag: r.tag, write: write, atomic: e.inAtomicAcc, locks: locks, where: where})
 }
 
 func (e *Engine) raceCheck(st *State, id string, site string) {
